@@ -4,9 +4,10 @@ import random
 
 from .. import core, flow, corr_bm, oracles_bm as ob
 
-PROOFS = ['Tsv.Proofs.BMCache', 'Tsv.Proofs.C07']
+PROOFS = ['Tsv.Proofs.BMCache', 'Tsv.Proofs.C07', 'Tsv.Proofs.C07Stats']
 TRUSTED = ["Lean 4.33 kernel + Mathlib", "Brownian model tied to the real class by per-query correspondence (incl. cache key order)",
-           "PARTIAL: only the cache bound is proved; 'returns normally / Python stack depth independent of history' are facts "
+           "PARTIAL: the cache bound (C07) and the statistics that set the dependency tree's resolution (C07Stats: running mean over all "
+           "queries, resolution >= every lower bound of the running means) are proved; 'returns normally / Python stack depth independent of history' are facts "
            "about the interpreter running the real code and are decided on the real objects (long solver-shaped histories, "
            "sub-tolerance intervals, constructor corner cases) and through the model correspondence (no fuel exhaustion)"]
 
